@@ -14,23 +14,28 @@ def fillGaps (prevEnd : α) : List (Iv α) → List (Iv α)
   | [] => []
   | e :: rest => (if prevEnd < e.s then [⟨prevEnd, e.s, ""⟩] else []) ++ e :: fillGaps e.e rest
 
+/-- "if there is a gap at the start of the file": a leading blank up to the first entry -/
+def withHead (minT : α) (first : Iv α) (ne : List (Iv α)) : List (Iv α) :=
+  if minT < first.s then ⟨minT, first.s, ""⟩ :: ne else ne
+
+/-- "if there is a gap at the end of the file": a trailing blank after the last entry -/
+def withTail (maxT : α) (lst : Iv α) (ne : List (Iv α)) : List (Iv α) :=
+  if lst.e < maxT then ne ++ [⟨lst.e, maxT, ""⟩] else ne
+
 /-- `_fillInBlanks(tier, "", minTime, maxTime)` on the (sorted) entry list -/
 def fillInBlanks (es : List (Iv α)) (minT maxT : α) : Except Err (List (Iv α)) :=
   let es0 := if es.isEmpty then [⟨minT, maxT, ""⟩] else es
   match es0 with
   | [] => .error .IndexError
   | first :: rest =>
-    let ne := first :: fillGaps first.e rest
     if first.s < minT then .error .ParsingError
     else
-      let ne1 := if minT < first.s then ⟨minT, first.s, ""⟩ :: ne else ne
+      let ne1 := withHead minT first (first :: fillGaps first.e rest)
       match ne1.getLast? with
       | none => .error .IndexError
       | some lst =>
         if maxT < lst.e then .error .ParsingError
-        else
-          let ne2 := if lst.e < maxT then ne1 ++ [⟨lst.e, maxT, ""⟩] else ne1
-          .ok (sortIvs ne2)
+        else .ok (sortIvs (withTail maxT lst ne1))
 
 /-- first loop of `_removeUltrashortIntervals`; the accumulator is kept reversed -/
 def absorbShort (minLen minT : α) : List (Iv α) → List (Iv α) → List (Iv α)
@@ -87,6 +92,11 @@ def prepTg (g : Tg α) (blanks : Bool) (minOv maxOv : Option α) (minLen : Optio
         | _, _ => throw .ValueError
       else pure (AnyTier.I t)
   pure ⟨tiers, minT, maxT⟩
+
+/-- `my_math.numToStr`: the integer form when the value is within 1e-14 (relative) of `int(value)`, else `repr`.
+`trunc`, `reprOf` and `intOf` are CPython's `int()`, `repr()` and `"%d" %` (parameters, see DESIGN §2.2). -/
+def numToStr (trunc : α → α) (reprOf intOf : α → String) (x : α) : String :=
+  if Tm.close14 x (trunc x) then intOf x else reprOf x
 
 /-- `utils.escapeQuotes` -/
 def escapeQuotes (s : String) : String := s.replace "\"" "\"\""
